@@ -138,7 +138,10 @@ class PipeRelay(Relay):
         try:
             with Timeout(self.timeout):
                 args = self._process_args(envelope, rcpt)
-                return self._exec_process(args, stdin)
+                result = self._exec_process(args, stdin)
+                if result is not None:
+                    raise result
+                return result
         except Timeout:
             msg = 'Delivery timed out'
             reply = Reply('450', '4.4.2 ' + msg)
